@@ -33,6 +33,32 @@ def features(rec):
     return f
 
 
+class HoleMech(probes.ProbeMech):
+    """ProbeMech whose FIRST output (and its sensitivities) is nan at the given times -- times at which the first output is not
+    measured in the configuration it is used for"""
+
+    def __init__(self, n_parameters, n_outputs, holes, tag):
+        super(HoleMech, self).__init__(n_parameters, n_outputs, tag=tag)
+        self._holes = list(holes)
+
+    def simulate(self, parameters, times):
+        res = super(HoleMech, self).simulate(parameters, times)
+        t = np.asarray(times, dtype=float)
+        mask = np.zeros(len(t), dtype=bool)
+        for h in self._holes:
+            mask |= np.isclose(t, h)
+        if isinstance(res, tuple):
+            out, sens = res
+            out = np.array(out, dtype=float)
+            sens = np.array(sens, dtype=float)
+            out[0, mask] = np.nan
+            sens[mask, 0, :] = np.nan
+            return out, sens
+        out = np.array(res, dtype=float)
+        out[0, mask] = np.nan
+        return out
+
+
 def nontrivial(rec):
     """A configuration exercises the union/selection bookkeeping if some output's grid differs
     from the union grid or contains a tie."""
@@ -287,6 +313,27 @@ def replay_case(arg):
                     fail('GradIsDecl', 'gradient_at_negative_predictions', dict(theta=th_n.tolist()))
             except Exception as e:
                 fail('Evaluable', type(e).__name__, dict(op='negative predictions', error=repr(e)))
+    # ---- what the model predicts for an output at a time at which that output was NOT measured belongs to no term of the sum:
+    # a model whose first output is undefined (nan) exactly at such union times scores like the well-defined one
+    if not fails and nout >= 2:
+        holes = [float(t_) for t_ in union_t if not np.any(np.isclose(times[0], t_))]
+        if holes and len(times[0]):
+            try:
+                mech_h = HoleMech(nmech, nout, holes, tag=tag + 'h')
+                with warnings.catch_warnings():
+                    warnings.simplefilter('ignore')
+                    ll_h = chi.LogLikelihood(mech_h, [probes.error_model(k_) for k_ in kinds], [o.copy() for o in obs],
+                                             [t.copy() for t in times])
+                    vh = float(ll_h(theta.copy()))
+                    sh = float(ll_h.evaluateS1(theta.copy())[0])
+                    ph = float(np.sum(ll_h.compute_pointwise_ll(theta.copy())))
+                cnt['evaluations'] = cnt.get('evaluations', 0) + 3
+                cnt['undefined_prediction_at_an_unmeasured_pair'] = 1
+                if not (interp.close(vh, exp_total) and interp.close(sh, exp_total) and interp.close(ph, exp_total)):
+                    fail('ExactlyOnce', 'prediction_at_an_unmeasured_pair_matters', dict(got=[vh, sh, ph], expected=exp_total,
+                                                                                         undefined_at=holes))
+            except Exception as e:
+                fail('Evaluable', type(e).__name__, dict(op='undefined prediction at an unmeasured pair', error=repr(e)))
     # ---- the same sums with one error-model parameter fixed at the likelihood (each in turn), then released ----------
     if not fails:
         for k_ in range(nmech, rec['nparams']):
